@@ -70,7 +70,10 @@ class _Rng:
         self.uniform_calls.append((float(lo), float(hi)))
         return lo + self.u * (hi - lo)
 
-    def randint(self, n, *a, size=None, **k):
+    def randint(self, low=None, high=None, size=None, **k):
+        n = low if high is None else high   # numpy: randint(low) draws from [0, low); randint(low, high) from [low, high)
+        if n is None or (high is not None and low not in (0, None)):
+            raise ndmodel.Unsupported("randint with a lower end other than 0")
         self.randint_calls.append((int(n), size))
         if len(self.randint_calls) > 6:
             raise _Stuck()
